@@ -10,6 +10,9 @@
 From Coq Require Import List Bool Arith.
 From Coq Require Import NArith.
 From TV Require Import Model.Engine Proofs.EngineCount Model.EngineToy Proofs.EngineToyProofs.
+From TV Require Import Num.Num Num.F32.
+From TV Require Model.EngineReal Proofs.EngineReal Model.BlockEngineReal Proofs.BlockEngineReal Model.BlockChainReal Proofs.BlockChainReal
+  Model.Block Model.BlockAlg Model.BlockEngine Model.BlockAbs.
 Import ListNotations.
 
 (* a cache hit evaluates nothing: the subtree (caches, layouts) is returned as it is *)
@@ -63,6 +66,102 @@ Proof.
   do 6 eexists. split; [vm_compute; reflexivity|]. split; [vm_compute; reflexivity|]. split; [vm_compute; reflexivity|].
   split; vm_compute; reflexivity.
 Qed.
+
+(* ================================================================================================================
+   An EXECUTABLE model of the cost (wave 6c; Model/EngineReal.v, notes/REALCACHE.md): the engine over a cache interface with per-node
+   counters; its instance `memo_real` (src/tree/cache.rs: one final-layout entry, nine slots, the lossy compatibility test) with the
+   block algorithm and the leaf kernel PREDICTS, per node and per pass, the number of compute_cached_layout calls, of cache hits and
+   of measure-function calls of `TaffyTree::compute_layout_with_measure` without the exact-key hook, and is compared with it count for
+   count on every run (`vh blocktree cases .. real`, `vh blocktree chains`).  The level stays `other`: the 64 x nodes bound for flex /
+   grid trees is still only explored; what is new is that the counts of block trees are the counts of a model, and the statements
+   below are about that model. *)
+Module RealCache.
+Import TV.Model.EngineReal TV.Proofs.EngineReal TV.Model.BlockEngineReal TV.Proofs.BlockEngineReal TV.Model.BlockChainReal
+  TV.Proofs.BlockChainReal TV.Model.Block TV.Model.BlockAlg TV.Model.BlockEngine TV.Model.BlockAbs.
+
+(* accounting, any algorithm, any cache behind the interface: at every node the evaluations of the node's algorithm are exactly the
+   compute_cached_layout calls the cache did not answer, lossy hits are hits, and -- when ONE evaluation calls the measure function at
+   most once -- the measure calls are at most the evaluations.  (Invariant of every evaluation; it holds at the start of a pass, where
+   all counters are zero: C16_real_pass_miss_count.) *)
+Theorem C16_real_miss_count :
+  forall (S In Out Lay : Type) (mode : In -> RunMode) (is_none : S -> bool) (hidden_out : Out) (zero_lay : Lay)
+         (algo : S -> list S -> In -> Alg In Out Lay) (mcalls : S -> list S -> In -> N)
+         (C : Type) (cget : C -> In -> option Out) (clossy : C -> In -> bool) (cstore : C -> In -> Out -> C) (cclear : C -> C),
+    (forall s kids i, (mcalls s kids i <= 1)%N) ->
+    forall f t i o t',
+      Forall (fun n => n_query n = n_hit n + n_eval n /\ n_lossy n <= n_hit n /\ n_meas n <= n_eval n)%N (gcounts S Lay C t) ->
+      gmemo S In Out Lay mode is_none hidden_out zero_lay algo mcalls C cget clossy cstore cclear f t i = Some (o, t') ->
+      Forall (fun n => n_query n = n_hit n + n_eval n /\ n_lossy n <= n_hit n /\ n_meas n <= n_eval n)%N (gcounts S Lay C t').
+Proof.
+  intros until cclear. intros Hm f t i o t' HA H.
+  apply (GAll_counts S Lay C acct). apply (GAll_counts S Lay C acct) in HA.
+  eapply gmemo_acct; eauto.
+Qed.
+
+Theorem C16_real_pass_miss_count :
+  forall (S In Out Lay : Type) (mode : In -> RunMode) (is_none : S -> bool) (hidden_out : Out) (zero_lay : Lay)
+         (algo : S -> list S -> In -> Alg In Out Lay) (mcalls : S -> list S -> In -> N)
+         (C : Type) (cget : C -> In -> option Out) (clossy : C -> In -> bool) (cstore : C -> In -> Out -> C) (cclear : C -> C),
+    (forall s kids i, (mcalls s kids i <= 1)%N) ->
+    forall f t i o t',
+      gmemo S In Out Lay mode is_none hidden_out zero_lay algo mcalls C cget clossy cstore cclear f (greset S Lay C t) i = Some (o, t') ->
+      Forall (fun n => n_query n = n_hit n + n_eval n /\ n_lossy n <= n_hit n /\ n_meas n <= n_eval n)%N (gcounts S Lay C t').
+Proof.
+  intros until cclear. intros Hm f t i o t' H.
+  apply (GAll_counts S Lay C acct). eapply gmemo_acct; [exact Hm| |exact H]. apply GAll_reset.
+Qed.
+
+(* the counters are GHOST: started from trees that agree up to their counters, two evaluations that differ only in the
+   instrumentation (`mcalls`, `clossy`) return the same output and the same tree up to the counters -- so `memo_real` is "the
+   engine" whatever is counted, and theorems about outputs / caches / layouts do not depend on the instrumentation *)
+Theorem C16_real_counters_are_ghost :
+  forall (S In Out Lay : Type) (mode : In -> RunMode) (is_none : S -> bool) (hidden_out : Out) (zero_lay : Lay)
+         (algo : S -> list S -> In -> Alg In Out Lay)
+         (C : Type) (cget : C -> In -> option Out) (cstore : C -> In -> Out -> C) (cclear : C -> C)
+         (mcalls1 mcalls2 : S -> list S -> In -> N) (clossy1 clossy2 : C -> In -> bool) f t1 t2 i,
+    greset S Lay C t1 = greset S Lay C t2 ->
+    option_map (fun p => (fst p, greset S Lay C (snd p)))
+               (gmemo S In Out Lay mode is_none hidden_out zero_lay algo mcalls1 C cget clossy1 cstore cclear f t1 i)
+    = option_map (fun p => (fst p, greset S Lay C (snd p)))
+                 (gmemo S In Out Lay mode is_none hidden_out zero_lay algo mcalls2 C cget clossy2 cstore cclear f t2 i).
+Proof. intros. apply gmemo_counters_irrelevant. assumption. Qed.
+
+(* the instance the correspondence runs (block containers + leaves, real cache, any number structure): no premise -- a container
+   never measures, a leaf at most once per evaluation (the log of Leaf.compute_leaf_layout, C19's kernel) -- for a whole
+   compute_layout (compute_root_layout on the tree with the counters of the pass reset) *)
+Theorem C16_real_block_pass_counts :
+  forall (T : Type) (NT : Num T) (abs_child : @AbsChild T) f (t : @brtree T) avail t',
+    blr_compute_root block_pre abs_child f (greset _ _ _ t) avail = Some t' ->
+    Forall (fun n => n_query n = n_hit n + n_eval n /\ n_lossy n <= n_hit n /\ n_meas n <= n_eval n)%N (gcounts _ _ _ t').
+Proof. intros. eapply blr_pass_acct; eauto. Qed.
+
+(* the bound of the property for chains of block containers: for EVERY chain of 1..64 block containers of three style families
+   (all defaults / width:200px / max-width:120px) over the harness's measured text leaf, under max-content, 300 x 200 and
+   min-content x max-content, the real-cache model measures the leaf at most TWICE and makes at most 2 * depth + 1
+   compute_cached_layout calls -- independent of the depth.  By computation over the bit-exact F32 instance (576 chains); the same
+   chains up to depth 16 (and three more families) are compared count for count with the implementation on every run.
+   `_partial`: bounded depth and these families only -- no induction over the depth; flex / grid containers are not in this model
+   (there the count does grow: known finding chain-measure-growth). *)
+Theorem C16_real_chain_bound_partial :
+  forall mix k d, (1 <= d <= 64)%nat -> (k <= 2)%nat ->
+    exists m q, @chain_leaf_meas f32 _ mix d k = Some m /\ (m <= 2)%N /\
+                @chain_queries f32 _ mix d k = Some q /\ (q <= 2 * N.of_nat d + 1)%N.
+Proof. exact chain_bound. Qed.
+
+(* computed instance: the counters of one pass over the depth-3 plain chain under max-content, root first, leaf last:
+   (queries, hits, lossy hits, evaluations, measure calls).  Every node below the root is asked twice (content-width pass, then
+   final layout); the second call is answered by the final-layout entry through the clause "known dimension = cached size" -- a
+   LOSSY hit, and the reason why the leaf is measured once whatever the depth *)
+Example C16_real_chain_example :
+  option_map (map (fun n => (n_query n, n_hit n, n_lossy n, n_eval n, n_meas n))) (@chain_counts f32 _ CPlain 3 0)
+  = Some [(1, 0, 0, 1, 0); (2, 1, 1, 1, 0); (2, 1, 1, 1, 0); (2, 1, 1, 1, 1)]%N.
+Proof. vm_compute. reflexivity. Qed.
+Print Assumptions C16_real_miss_count.
+Print Assumptions C16_real_pass_miss_count.
+Print Assumptions C16_real_counters_are_ghost.
+Print Assumptions C16_real_block_pass_counts.
+Print Assumptions C16_real_chain_bound_partial.
+End RealCache.
 
 Print Assumptions C16_hit_is_free.
 Print Assumptions C16_evaluated_then_hit.
